@@ -214,14 +214,16 @@ class Normaliser:
             def sub(mo, rep=rep):
                 self.note('N3', where, mo.group(0), rep)
                 return mo.expand(rep)
-            # apply on unmasked text but only where the masked text also matches (not inside strings)
+            # match on the real text; accept a match only if it STARTS in code (not inside a
+            # string literal or comment) - it may span string literals (e.g. .expect("...")).
             m = rs.mask(text)
             out = []
             last = 0
-            for mo in re.finditer(rx, m):
-                if text[mo.start():mo.end()] != mo.group(0):
+            for mo in re.finditer(rx, text):
+                st = mo.start()
+                if st < last or m[st] != text[st]:
                     continue
-                out.append(text[last:mo.start()])
+                out.append(text[last:st])
                 out.append(sub(mo))
                 last = mo.end()
             out.append(text[last:])
@@ -360,6 +362,7 @@ class Unit:
         self.obligations = {}   # id -> {props, kind, text, fn}
         self.functions = []     # real functions under contract: {id, file, line, props}
         self.havocs = []
+        self.trait_contracts = []
         self.reduced = []
         self.order = []
 
@@ -516,9 +519,14 @@ class Unit:
             raise GenError('function %s extracted twice' % fid)
         self.order.append(fid)
         props = block.get('props') or self.props
-        self.functions.append({'id': fid, 'file': src.rel, 'line': src.line_of(it.decl), 'props': props})
         (h0, po, pc, arrow, rstart, rend, where_pos, bopen) = rs.fn_parts(src.text, src.m, it)
         nobody = bopen < 0
+        if nobody:
+            # trait method declaration: its contract is an ASSUMPTION about every implementor
+            self.trait_contracts.append('%s:%d trait-level contract on %s (assumed for every implementor): %s' % (
+                src.rel, src.line_of(it.decl), fid, ' '.join(block.get('contract', '').split())[:400]))
+        else:
+            self.functions.append({'id': fid, 'file': src.rel, 'line': src.line_of(it.decl), 'props': props})
         if nobody:
             bopen = it.end - 1   # position of the terminating ';'
         sig = src.text[h0:bopen]
@@ -583,21 +591,24 @@ class Unit:
             inserts.append((pos, [Seg('\n' + text + '\n', fn=fid, clause=(oid if has_assert else None), kind='ghost')]))
         inserts.sort(key=lambda x: x[0])
         # header
-        self.emit(''.join(a + '\n' for a in attrs) + sig, fn=fid, origin=where, kind='sig')
+        self.emit(''.join(a + '\n' for a in attrs) + sig, fn=(None if nobody else fid), origin=where, kind='sig')
         ctext = block.get('contract', '')
-        if ctext.strip():
-            self.segs.append(Seg('\n', fn=fid))
-            self.segs.extend(self.contract_segs(fid, ctext, '', props))
-        self.obligations['%s/%s/safety' % (self.name, fid)] = {
-            'props': props, 'kind': 'safety', 'fn': fid,
-            'text': 'body of %s: no overflow, index/slice in range, callee preconditions, termination measures' % fid}
-        self.segs.append(Seg('', fn=fid, kind='canary-slot'))
+        if nobody:
+            self.segs.append(Seg('\n' + ctext + '\n', kind='raw', origin=[]))
+        else:
+            if ctext.strip():
+                self.segs.append(Seg('\n', fn=fid))
+                self.segs.extend(self.contract_segs(fid, ctext, '', props))
+            self.obligations['%s/%s/safety' % (self.name, fid)] = {
+                'props': props, 'kind': 'safety', 'fn': fid,
+                'text': 'body of %s: no overflow, index/slice in range, callee preconditions, termination measures' % fid}
+            self.segs.append(Seg('', fn=fid, kind='canary-slot'))
         last = 0
         for (pos, sg) in inserts:
             self.emit(body[last:pos], fn=fid, origin=where, kind='body')
             self.segs.extend(sg)
             last = pos
-        self.emit(body[last:] + '\n', fn=fid, origin=where, kind='body')
+        self.emit(body[last:] + '\n', fn=(None if nobody else fid), origin=where, kind='body')
 
     def contract_segs(self, fid, text, prefix, props):
         segs = []
